@@ -21,8 +21,9 @@ FileLists == UNION { [1..n -> BaseFiles] : n \in 1..MaxFiles } \cup { <<f>> : f 
 Doc(mid, roid, kind) == [mid |-> mid, roid |-> roid, kind |-> kind]
 Pool == { Doc(9, "RO1", "roCreate"), Doc(1000, "RO1", "roCreate"), Doc(10, "RO1", "ok"), Doc(100, "RO1", "warn"),
           Doc(11, "RO1", "fail"), Doc(101, "RO1", "roDelete"), Doc(99, "RO1 ", "ok"),
-          Doc(102, "RO1", "ok") }            \* a message numbered after the roDelete
-DocLists == UNION { { s \in [1..n -> Pool] : \A a, b \in 1..n : a < b => s[a].mid < s[b].mid } : n \in 1..MaxDocs }
+          Doc(102, "RO1", "ok"),             \* a message numbered after the roDelete
+          Doc(10, "RO1", "ok2") }            \* shares its message id with another message: the order of supply decides
+DocLists == UNION { { s \in [1..n -> Pool] : \A a, b \in 1..n : a < b => (s[a].mid <= s[b].mid /\ s[a] # s[b]) } : n \in 1..MaxDocs }
 
 VARIABLES cmd, mode, files, k, marks, pc
 clivars == <<cmd, mode, files, k, marks, pc>>
